@@ -228,6 +228,21 @@ def run(ctx):
                 ctx.tick(len(g2), ("B", ver, frac, float(uu)))
                 for c, i, e, o in v3:
                     ctx.violation(c, {"kind": "taus", "version": ver, "frac": frac, "logE": [g2[i, 0]], "beta": [g2[i, 1]], "u": float(uu)}, e, o)
+    # one long-lived Taus object, etau_frac changed between calls (a parameter scan re-using the loaded tables)
+    from nuspacesim.config import NssConfig, Simulation
+    from nuspacesim.simulation.taus.taus import Taus
+
+    cfgm = NssConfig(simulation=Simulation(tau_shower=Simulation.NuPyPropShower(etau_frac=0.5, table_version="3")))
+    tm = Taus(cfgm)
+    for frac in (0.5, 0.1, 1.0, 0.25, 0.5):
+        cfgm.simulation.tau_shower.etau_frac = frac
+        with RngStub(fn=lambda idx, n: np.full(n, 0.37)).installed():
+            tb, tl, te, se, pe = tm(np.array([0.1, 0.3]), np.array([8.0, 10.0]))
+        ctx.tick(2, ("frac_history", frac))
+        exp = frac * te / 1e8
+        if not np.all(ulps(se, exp) <= 2):
+            ctx.violation("shower_energy", {"kind": "frac_history", "fracs": [0.5, 0.1, 1.0, 0.25, 0.5], "at": frac}, exp.tolist(), np.asarray(se).tolist())
+            break
     ctx.sample({"part": "B", "version": 3, "etau_frac": 0.5, "logE": float(g2[3, 0]), "beta_rad": float(g2[3, 1]), "u": float(us[5]), "tauEnergy_GeV": float(tE[3])})
 
 
@@ -265,6 +280,20 @@ def replay(case):
         else:
             prev = np.inf
         return [] if (err <= 1.0 / m and err < prev) else [("mean_decay_length", f"<=1/{m}", err)]
+    if k == "frac_history":
+        from nuspacesim.config import NssConfig, Simulation
+        from nuspacesim.simulation.taus.taus import Taus
+
+        cfgm = NssConfig(simulation=Simulation(tau_shower=Simulation.NuPyPropShower(etau_frac=0.5, table_version="3")))
+        tm = Taus(cfgm)
+        for frac in case["fracs"]:
+            cfgm.simulation.tau_shower.etau_frac = frac
+            with RngStub(fn=lambda idx, n: np.full(n, 0.37)).installed():
+                tb, tl, te, se, pe = tm(np.array([0.1, 0.3]), np.array([8.0, 10.0]))
+            exp = frac * te / 1e8
+            if not np.all(ulps(se, exp) <= 2):
+                return [("shower_energy", exp.tolist(), np.asarray(se).tolist())]
+        return []
     if k == "taus":
         v, _ = judge_taus(case["version"], case["frac"], np.array(case["logE"]), np.array(case["beta"]), case["u"])
         return [(c, e, o) for c, i, e, o in v]
